@@ -5,8 +5,12 @@
 package c08
 
 import (
+	"crypto/sha256"
 	"encoding/json"
 	"fmt"
+	"io"
+	"log"
+	"reflect"
 	"runtime"
 	"sort"
 	"strconv"
@@ -174,16 +178,37 @@ func (f *fixture) build1(s BaseSpec) (*pb.InternalBlock, error) {
 	return f.w.Ledger.FormatMinerBlock(list, []byte(k.Address), k.Priv, baseT, 3, 2, f.w.Genesis.Blockid, s.TargetBits, f.w.State.GetTotal(), qc, failed, 1)
 }
 
-func (f *fixture) verify(b *pb.InternalBlock) bool {
+// panicked is set (to the panic text) when the last call on this goroutine's
+// behalf panicked inside xupercore: counted as a refusal and reported apart.
+type outcome struct {
+	ok    bool
+	panic string
+}
+
+func (f *fixture) verify(b *pb.InternalBlock) bool { return f.verifyP(b).ok }
+
+func (f *fixture) verifyP(b *pb.InternalBlock) (o outcome) {
+	defer func() {
+		if r := recover(); r != nil {
+			o = outcome{false, fmt.Sprint(r)}
+		}
+	}()
 	ok, _ := f.w.Ledger.VerifyBlock(b, "c08")
-	return ok
+	return outcome{ok: ok}
 }
 
 // checkSingle asks single's CheckMinerMatch (on a copy: it rewrites Blockid).
-func (f *fixture) checkSingle(b *pb.InternalBlock) bool {
+func (f *fixture) checkSingle(b *pb.InternalBlock) bool { return f.checkSingleP(b).ok }
+
+func (f *fixture) checkSingleP(b *pb.InternalBlock) (o outcome) {
+	defer func() {
+		if r := recover(); r != nil {
+			o = outcome{false, fmt.Sprint(r)}
+		}
+	}()
 	ctx := &xcontext.BaseCtx{XLog: world.NopLogger{}, Timer: timer.NewXTimer()}
 	ok, _ := f.single.CheckMinerMatch(ctx, state.NewBlockAgent(world.CloneBlock(b)))
-	return ok
+	return outcome{ok: ok}
 }
 
 // sigStillValid is the statement's condition on the signature, recomputed
@@ -212,6 +237,68 @@ func normalise(b *pb.InternalBlock) *pb.InternalBlock {
 	return b
 }
 
+// digest identifies the content of a (normalised) block: every field by
+// reflection, a transaction by its Txid (no mutant edits anything else of one).
+func digest(b *pb.InternalBlock, expect int) [32]byte {
+	h := sha256.New()
+	fmt.Fprintf(h, "%d|", expect)
+	var walk func(v reflect.Value)
+	walk = func(v reflect.Value) {
+		switch v.Kind() {
+		case reflect.Ptr:
+			if v.IsNil() {
+				h.Write([]byte{0})
+				return
+			}
+			h.Write([]byte{1})
+			if tx, ok := v.Interface().(*pb.Transaction); ok {
+				fmt.Fprintf(h, "%d:", len(tx.Txid))
+				h.Write(tx.Txid)
+				return
+			}
+			walk(v.Elem())
+		case reflect.Struct:
+			t := v.Type()
+			for i := 0; i < t.NumField(); i++ {
+				if strings.HasPrefix(t.Field(i).Name, "XXX_") {
+					continue
+				}
+				h.Write([]byte(t.Field(i).Name))
+				walk(v.Field(i))
+			}
+		case reflect.Slice:
+			fmt.Fprintf(h, "%d:", v.Len())
+			if v.Type().Elem().Kind() == reflect.Uint8 {
+				h.Write(v.Bytes())
+				return
+			}
+			for i := 0; i < v.Len(); i++ {
+				walk(v.Index(i))
+			}
+		case reflect.Map:
+			ks := v.MapKeys()
+			sort.Slice(ks, func(i, j int) bool { return ks[i].String() < ks[j].String() })
+			fmt.Fprintf(h, "%d:", len(ks))
+			for _, k := range ks {
+				walk(k)
+				walk(v.MapIndex(k))
+			}
+		case reflect.String:
+			fmt.Fprintf(h, "%d:%s", v.Len(), v.String())
+		case reflect.Bool:
+			fmt.Fprintf(h, "%v;", v.Bool())
+		case reflect.Int32, reflect.Int64, reflect.Int:
+			fmt.Fprintf(h, "%d;", v.Int())
+		default:
+			panic("c08 digest: unhandled kind " + v.Kind().String())
+		}
+	}
+	walk(reflect.ValueOf(b))
+	var out [32]byte
+	copy(out[:], h.Sum(nil))
+	return out
+}
+
 func recomputeMerkle(b *pb.InternalBlock) {
 	b.TxCount = int32(len(b.Transactions))
 	b.MerkleTree = ledger.MakeMerkleTree(b.Transactions)
@@ -229,16 +316,18 @@ func recomputeID(b *pb.InternalBlock) {
 }
 
 type verdict struct {
-	noop         bool
-	verifyOK     bool
-	singleOK     bool
-	key          string // violation key ("" = none)
-	sigValid     bool
-	verifyFailed bool
+	noop        bool
+	dup         bool
+	verifyOK    bool
+	singleOK    bool
+	key         string // violation key ("" = none)
+	sigValid    bool
+	verifyPanic string // VerifyBlock panicked (counted as refused)
+	singlePanic string // single.CheckMinerMatch panicked (counted as refused)
 }
 
 // judge applies one mutant to a copy of base and evaluates the oracle.
-func (f *fixture) judge(baseBlk, baseNorm *pb.InternalBlock, m *mutant) verdict {
+func (f *fixture) judge(baseBlk, baseNorm *pb.InternalBlock, m *mutant, seen map[[32]byte]bool) verdict {
 	b := world.CloneBlock(baseBlk)
 	m.apply(b)
 	switch m.fix {
@@ -253,10 +342,19 @@ func (f *fixture) judge(baseBlk, baseNorm *pb.InternalBlock, m *mutant) verdict 
 	if m.post != nil {
 		m.post(b)
 	}
-	if proto.Equal(normalise(world.CloneBlock(b)), baseNorm) {
+	norm := normalise(world.CloneBlock(b))
+	if proto.Equal(norm, baseNorm) {
 		return verdict{noop: true}
 	}
-	v := verdict{verifyOK: f.verify(b), singleOK: f.checkSingle(b)}
+	if seen != nil { // two edits that produce the same block (0-1 and neg(0), ...) are one case
+		h := digest(norm, m.expect)
+		if seen[h] {
+			return verdict{dup: true}
+		}
+		seen[h] = true
+	}
+	vo, so := f.verifyP(b), f.checkSingleP(b)
+	v := verdict{verifyOK: vo.ok, singleOK: so.ok, verifyPanic: vo.panic, singlePanic: so.panic}
 	vBad, sBad := false, false
 	switch m.expect {
 	case mustRefuse:
@@ -280,20 +378,23 @@ func (f *fixture) judge(baseBlk, baseNorm *pb.InternalBlock, m *mutant) verdict 
 }
 
 type stats struct {
-	evals, mutants, noops, verifyAcc, verifyRef, singleAcc, singleRef int
-	perClass                                                          map[string][2]int // class -> [accepted, refused] at VerifyBlock
-	freeAccepted                                                      map[string]int    // unhashed paths accepted (outside the statement)
-	viol                                                              map[string]int
+	evals, mutants, noops, dups, verifyAcc, verifyRef, singleAcc, singleRef int
+	perClass                                                                map[string][2]int // class -> [accepted, refused] at VerifyBlock
+	freeAccepted                                                            map[string]int    // unhashed paths accepted (outside the statement)
+	viol                                                                    map[string]int
+	panics                                                                  map[string]int  // seam and panic text -> count
+	panicEx                                                                 map[string]Case // smallest example
 }
 
 func newStats() *stats {
-	return &stats{perClass: map[string][2]int{}, freeAccepted: map[string]int{}, viol: map[string]int{}}
+	return &stats{perClass: map[string][2]int{}, freeAccepted: map[string]int{}, viol: map[string]int{}, panics: map[string]int{}, panicEx: map[string]Case{}}
 }
 
 func (s *stats) merge(o *stats) {
 	s.evals += o.evals
 	s.mutants += o.mutants
 	s.noops += o.noops
+	s.dups += o.dups
 	s.verifyAcc += o.verifyAcc
 	s.verifyRef += o.verifyRef
 	s.singleAcc += o.singleAcc
@@ -309,6 +410,19 @@ func (s *stats) merge(o *stats) {
 	}
 	for k, v := range o.viol {
 		s.viol[k] += v
+	}
+	for k, v := range o.panics {
+		s.panics[k] += v
+	}
+	for k, c := range o.panicEx {
+		s.notePanic(k, c, 0)
+	}
+}
+
+func (s *stats) notePanic(seam string, c Case, n int) {
+	s.panics[seam] += n
+	if o, ok := s.panicEx[seam]; !ok || caseLess(c, o) {
+		s.panicEx[seam] = c
 	}
 }
 
@@ -367,6 +481,7 @@ func specs(tier core.Tier) []BaseSpec {
 func run(tier core.Tier) *core.Report {
 	rep := core.NewReport("C08", tier, "exploration")
 	world.Init()
+	log.SetOutput(io.Discard) // the crypto library reports unsupported curve names on the standard logger
 	maxN := 20
 	f, err := newFixture(maxN)
 	if err != nil {
@@ -386,6 +501,17 @@ func run(tier core.Tier) *core.Report {
 		best[v.Key] = found{c, v}
 	}
 	baseOK, baseEmptyRefused, baseWireOK := 0, 0, 0
+	samples := map[string]interface{}{}
+	wantSample := map[string]bool{}
+	for _, c := range []Case{
+		{Base: BaseSpec{N: 3, Justify: -1}, Mutant: "tx|dup|2@3|raw"},
+		{Base: BaseSpec{N: 5, Justify: 1, Failed: 1}, Mutant: "hdr|Justify.SignInfos.QCSignInfos[0].Sign|flip:0|id"},
+		{Base: BaseSpec{N: 2, Justify: -1, TargetBits: 0x1d00ffff}, Mutant: "signer|sign+pubkey+proposer|id"},
+		{Base: BaseSpec{N: 9, Justify: 3, Failed: 2}, Mutant: "tx|swap|1,8|merkle+id"},
+		{Base: BaseSpec{N: 4, Justify: 0, Failed: 2}, Mutant: "hdr|Timestamp|+1|raw"},
+	} {
+		wantSample[c.Base.String()+"|"+c.Mutant] = true
+	}
 	complete := true
 	jobs := make(chan BaseSpec)
 	var wg sync.WaitGroup
@@ -428,11 +554,21 @@ func run(tier core.Tier) *core.Report {
 					continue
 				}
 				baseNorm := normalise(world.CloneBlock(blk))
-				for _, m := range f.mutants(blk, tier) {
-					v := f.judge(blk, baseNorm, m)
+				seen := map[[32]byte]bool{}
+				for _, m := range f.mutants(blk, s, tier) {
+					v := f.judge(blk, baseNorm, m, seen)
 					if v.noop {
 						loc.noops++
 						continue
+					}
+					if v.dup {
+						loc.dups++
+						continue
+					}
+					if wantSample[s.String()+"|"+m.id] {
+						mu.Lock()
+						samples[s.String()+"|"+m.id] = map[string]interface{}{"base": s, "mutant": m.id, "what": m.what, "verify_block_accepted": v.verifyOK, "single_check_miner_match_accepted": v.singleOK}
+						mu.Unlock()
 					}
 					loc.mutants++
 					loc.evals += 2
@@ -452,6 +588,12 @@ func run(tier core.Tier) *core.Report {
 						loc.singleAcc++
 					} else {
 						loc.singleRef++
+					}
+					if v.verifyPanic != "" {
+						loc.notePanic("Ledger.VerifyBlock: "+v.verifyPanic, Case{Base: s, Mutant: m.id}, 1)
+					}
+					if v.singlePanic != "" {
+						loc.notePanic("single.CheckMinerMatch: "+v.singlePanic, Case{Base: s, Mutant: m.id}, 1)
 					}
 					if v.key != "" {
 						loc.viol[v.key]++
@@ -502,8 +644,9 @@ func run(tier core.Tier) *core.Report {
 	rep.Set("base_blocks_empty", fmt.Sprintf("%d formatted with 0 transactions, %d refused by VerifyBlock (VerifyMerkle cannot make a tree of nothing; a produced block always carries the award: recorded, not alarmed)", len(all)-nonEmpty, baseEmptyRefused))
 	rep.Set("evaluations", total.evals)
 	rep.Set("distinct_nontrivial", total.mutants)
-	rep.Set("rule", "cases = base blocks {n transactions} x {justify none/0/1/3 sigs} x {failed-tx entries} x {target bits} formatted by Ledger.FormatMinerBlock (+ FormatBlock), times every single mutation: reflection walk over every InternalBlock / QuorumCert / SignInfo field (ints +1 -1 =0 neg bit20; bytes and strings bit flips, append, drop first/last, empty; structure drop/dup/swap), failed-tx map edits, field-boundary shifts between adjacent variable-length hashed fields, every tx dropped / swapped with every other / duplicated at every position / replaced / foreign tx at every position / txid altered / tail duplicated, merkle tree edits, every signature bit flipped, re-signing by another key; body mutants raw, with merkle+count recomputed, and with the id recomputed too; header mutants raw and with the id recomputed; a mutant is non-trivial when it differs from its base in content (no-op edits are skipped and counted apart)")
+	rep.Set("rule", "cases = base blocks {n transactions} x {justify none/0/1/3 sigs} x {failed-tx entries} x {target bits} formatted by Ledger.FormatMinerBlock (+ FormatBlock), times every single mutation: reflection walk over every InternalBlock / QuorumCert / SignInfo field (ints +1 -1 =0 neg bit20; bytes and strings bit flips, append, drop first/last, empty; structure drop/dup/swap), failed-tx map edits, field-boundary shifts between adjacent variable-length hashed fields, every tx dropped / swapped with every other / duplicated at every position / replaced / foreign tx at every position / txid altered / tail duplicated, merkle tree edits, every signature bit flipped, re-signing by another key; body mutants raw, with merkle+count recomputed, and with the id recomputed too; header mutants raw and with the id recomputed; a mutant is non-trivial when it differs from its base in content (no-op edits are skipped and counted apart) and distinct when no other edit of the same base produced the same block (duplicates skipped and counted apart)")
 	rep.Set("noop_mutants_skipped", total.noops)
+	rep.Set("duplicate_mutants_skipped", total.dups)
 	rep.Set("verify_block_accepted", total.verifyAcc)
 	rep.Set("verify_block_refused", total.verifyRef)
 	rep.Set("single_check_miner_match_accepted", total.singleAcc)
@@ -515,17 +658,31 @@ func run(tier core.Tier) *core.Report {
 	rep.Set("verify_block_per_class", pc)
 	rep.Set("outside_statement_accepted", total.freeAccepted)
 	rep.Set("violating_mutants_per_key", total.viol)
+	pn := map[string]string{}
+	for k, n := range total.panics {
+		c := total.panicEx[k]
+		pn[k] = fmt.Sprintf("%d mutants (counted as refused, outside the statement); smallest: base (%v) mutant %q", n, c.Base, c.Mutant)
+	}
+	rep.Set("panics_inside_xupercore", pn)
 	rep.Set("exhaustive", complete)
-	rep.Sample(Case{Base: BaseSpec{N: 3, Justify: -1}, Mutant: "tx|dup|2@3|raw"})
-	rep.Sample(Case{Base: BaseSpec{N: 5, Justify: 1, Failed: 1}, Mutant: "hdr|Justify.SignInfos.QCSignInfos[0].Sign|flip:0|id"})
-	rep.Sample(Case{Base: BaseSpec{N: 2, Justify: -1, TargetBits: 0x1d00ffff}, Mutant: "signer|sign+pubkey+proposer|id"})
-	rep.Sample(Case{Base: BaseSpec{N: 9, Justify: 3, Failed: 2}, Mutant: "tx|swap|1,8|merkle+id"})
+	sk := make([]string, 0, len(samples))
+	for k := range samples {
+		sk = append(sk, k)
+	}
+	sort.Strings(sk)
+	for _, k := range sk {
+		rep.Sample(samples[k])
+	}
 	rep.Assume("a transaction is identified by its Txid here; the binding of a transaction's content to its Txid is C07")
 	rep.Assume("fields outside the statement (not hashed, not body): Height, InTrunk, NextHash, MerkleTree (VerifyBlock recomputes the tree from the transactions and compares the root only), keys of FailedTxs (and entries with an empty message); their mutants are evaluated and counted (outside_statement_accepted), never alarmed")
 	rep.Assume("single.CheckMinerMatch is not responsible for the body (its comment delegates to VerifyMerkle) and rewrites Blockid with the recomputed id before comparing: body-only and Blockid-only mutants are judged at VerifyBlock only")
 	rep.Assume("a block re-signed by another key with Pubkey and Proposer replaced and the id recomputed is a well-formed block of that other proposer: VerifyBlock may accept it, the consensus (single) must refuse it")
-	fmt.Printf("C08 %s: base blocks=%d (non-empty verified %d/%d, empty refused %d); mutants=%d (no-ops skipped %d); VerifyBlock accepted=%d refused=%d; single accepted=%d refused=%d\n",
-		tier, len(all), baseOK, nonEmpty, baseEmptyRefused, total.mutants, total.noops, total.verifyAcc, total.verifyRef, total.singleAcc, total.singleRef)
+	npanic := 0
+	for _, n := range total.panics {
+		npanic += n
+	}
+	fmt.Printf("C08 %s: base blocks=%d (non-empty verified %d/%d, empty refused %d); mutants=%d (no-ops skipped %d); VerifyBlock accepted=%d refused=%d; single accepted=%d refused=%d; panics inside xupercore (counted as refusals)=%d\n",
+		tier, len(all), baseOK, nonEmpty, baseEmptyRefused, total.mutants, total.noops, total.verifyAcc, total.verifyRef, total.singleAcc, total.singleRef, npanic)
 	return rep
 }
 
@@ -535,6 +692,7 @@ func replay(raw json.RawMessage) (bool, string, error) {
 		return false, "", err
 	}
 	world.Init()
+	log.SetOutput(io.Discard)
 	f, err := newFixture(20)
 	if err != nil {
 		return false, "", err
@@ -558,15 +716,22 @@ func replay(raw json.RawMessage) (bool, string, error) {
 			want = fmt.Sprintf("sig|flip:%d", k%(8*len(blk.Sign)))
 		}
 	}
-	for _, m := range f.mutants(blk, core.Thorough) {
+	for _, m := range f.mutants(blk, c.Base, core.Thorough) {
 		if m.id != want {
 			continue
 		}
-		v := f.judge(blk, baseNorm, m)
+		v := f.judge(blk, baseNorm, m, nil)
 		if v.noop {
 			return false, "mutant is a no-op on this base", nil
 		}
-		return v.key != "", fmt.Sprintf("base %v mutant %q [%s]: VerifyBlock accepted=%v single accepted=%v key=%s", c.Base, m.id, m.what, v.verifyOK, v.singleOK, v.key), nil
+		msg := fmt.Sprintf("base %v mutant %q [%s]: VerifyBlock accepted=%v single accepted=%v key=%s", c.Base, m.id, m.what, v.verifyOK, v.singleOK, v.key)
+		if v.verifyPanic != "" {
+			msg += " VerifyBlock panicked: " + v.verifyPanic
+		}
+		if v.singlePanic != "" {
+			msg += " single.CheckMinerMatch panicked: " + v.singlePanic
+		}
+		return v.key != "", msg, nil
 	}
 	return false, "", fmt.Errorf("mutant %q does not exist for base %v", c.Mutant, c.Base)
 }
